@@ -12,6 +12,7 @@ import (
 
 	"verif/engine"
 	"verif/ref/ccachefmt"
+	"verif/ref/der"
 	"verif/ref/keytabfmt"
 	"verif/ref/krbmsg"
 	"verif/ref/rcrypto"
@@ -59,6 +60,11 @@ type Opts struct {
 	// UserInstance, when set, makes the client principal testuser1/<instance>; with keytab credentials the keytab
 	// then also holds a newer entry for sibling/<instance> with another key (the usual host keytab layout)
 	UserInstance string `json:"user_instance,omitempty"`
+	// HintSeq, when set (password credentials, pre-authentication required): the PREAUTH_REQUIRED e-data carries these
+	// hint kinds (3 PW-SALT, 11 ETYPE-INFO, 19 ETYPE-INFO2) in this order; the kind of highest RFC 4120 5.2.7.5
+	// precedence carries the principal's real etype / salt / parameters, the others carry decoys (DecoyEtype, other salts)
+	HintSeq    []int32 `json:"preauth_hint_sequence,omitempty"`
+	DecoyEtype int32   `json:"decoy_etype,omitempty"`
 	// UDPTooBig: every KDC answers KRB_ERR_RESPONSE_TOO_BIG over UDP, so that every exchange ends up on TCP
 	UDPTooBig bool `json:"udp_answers_response_too_big,omitempty"`
 }
@@ -163,6 +169,9 @@ func New(o Opts) *World {
 		if o.PreAuth == "assumed" {
 			params = nil // without a hint from the KDC the client can only use the default parameters
 		}
+		if len(o.HintSeq) > 0 && !hasKind(o.HintSeq, 19) {
+			params = nil // only ETYPE-INFO2 can convey parameters
+		}
 		w.KDC.AddPasswordPrincipal(UserNames(o), w.PasswordValue(), o.ETypes, o.Salt, params)
 	} else if o.Cred == "ccache" {
 		w.KDC.AddKeyPrincipal(UserNames(o), o.ETypes)
@@ -232,6 +241,47 @@ func New(o Opts) *World {
 			vnet.Register("udp", a, &vnet.Endpoint{Behaviour: vnet.Answer, Handler: func(string, string, []byte) []byte { return tooBig }})
 		}
 	}
+	if len(o.HintSeq) > 0 {
+		w.KDC.PAHints = func(real krbmsg.ETypeInfo2Entry) []krbmsg.PAData {
+			top := int32(3)
+			for _, k := range []int32{11, 19} {
+				if hasKind(o.HintSeq, k) {
+					top = k
+				}
+			}
+			salt := func(real *string, decoy string, isTop bool) *string {
+				if isTop {
+					return real
+				}
+				return &decoy
+			}
+			var out []krbmsg.PAData
+			for _, k := range o.HintSeq {
+				switch k {
+				case 19:
+					out = append(out, krbmsg.PAData{Type: 19, Value: krbmsg.EncodeETypeInfo2([]krbmsg.ETypeInfo2Entry{real})})
+				case 11:
+					et, sa := real.EType, salt(real.Salt, "decoy-salt-of-etype-info", top == 11)
+					if top != 11 {
+						et = o.DecoyEtype
+					}
+					items := [][]byte{der.Explicit(0, der.Int(int64(et)))}
+					if sa != nil {
+						items = append(items, der.Explicit(1, der.Octets([]byte(*sa))))
+					}
+					out = append(out, krbmsg.PAData{Type: 11, Value: der.Seq(der.Seq(items...))})
+				case 3:
+					sa := salt(real.Salt, "decoy-salt-of-pw-salt", top == 3)
+					v := []byte{}
+					if sa != nil {
+						v = []byte(*sa)
+					}
+					out = append(out, krbmsg.PAData{Type: 3, Value: v})
+				}
+			}
+			return out
+		}
+	}
 	w.Conf = ConfText(o)
 	w.Config = ParseCached(w.Conf)
 	if o.Cred == "ccache" {
@@ -264,6 +314,15 @@ func (w *World) writeCCache() []byte {
 	tgt := w.KDC.IssueDirect(UserNames(o), []string{"krbtgt", Realm}, o.TicketLifetime, o.RenewLifetime, flags)
 	svc := w.KDC.IssueDirect(UserNames(o), []string{"HTTP", "host.test.gokrb5"}, o.TicketLifetime/2, o.RenewLifetime, flags&^simkdc.FlagInitial)
 	return ccachefmt.Write(ccachefmt.CCache{Version: 4, Default: me, Creds: []ccachefmt.Credential{cred(tgt), cred(svc)}})
+}
+
+func hasKind(seq []int32, k int32) bool {
+	for _, x := range seq {
+		if x == k {
+			return true
+		}
+	}
+	return false
 }
 
 // UserNames returns the components of the client principal.
